@@ -458,6 +458,16 @@ def unit(p, item, tier, seed):
     elif kind == "feature":
         for n, c in circgen.feature_circuits():
             check_circuit(p, n, c, rnd, exhaustive_starts=True)
+            if c.inputs:
+                # the same circuit after conversion to the bench basis (operand links are rewired in place)
+                from checks import mutators
+
+                c2 = mutators.rebuild(c)
+                try:
+                    c2.into_bench()
+                except Exception:  # noqa: BLE001
+                    continue
+                check_circuit(p, n + "/into_bench", c2, rnd, exhaustive_starts=False, build_src=circ.circ_src(c) + "\nc.into_bench()\n")
         # canary: oracle must flag a wrong reachable set
         c = circgen.build(["a", "b"], [("g", G.AND, ("a", "b"))], ["g"])
         p.canary(reach(c, ["g"], False) == {"a", "b", "g"} and reach(c, ["a"], True) == {"a", "g"})
